@@ -200,7 +200,7 @@ def call_native(eng, obj, args, kwargs, st):
         return h(eng, args, kwargs, st)
     # repo functions
     mod = getattr(obj, "__module__", None) or ""
-    if isinstance(obj, types.FunctionType) and mod.startswith("doctrans") and not (
+    if isinstance(obj, types.FunctionType) and (mod.startswith("doctrans") or mod == "vf.contracts.laws") and not (
             getattr(eng, "concrete_fallback", False) and getattr(eng, "to_py", None) and obj.__name__ in READERS):
         if getattr(eng, "concrete_fallback", False) and all(_concrete(a) for a in args) and all(_concrete(v) for v in kwargs.values()):
             snap = st.copy()
@@ -554,6 +554,10 @@ def n_all(eng, args, kwargs, st):
 
 def n_map(eng, args, kwargs, st):
     f = args[0]
+    if len(args) == 2 and isinstance(args[1], Opq) and args[1].cls is None and isinstance(f, Native) and getattr(f.obj, "__objclass__", None) is str:
+        # map(str.<method>, <opaque list of an unknown number of strings>): an opaque list again, a function of the first
+        eng.assumed.add("map(str.%s, <opaque list>): an opaque list (only joined or handed on)" % f.obj.__name__)
+        return [(Opq(z3.Function("map_str_%s" % f.obj.__name__, Obj, Obj)(args[1].t), None), st)]
     seqs = [eng.iter_concrete(a, st) for a in args[1:]]
     outs = [([], st)]
     for tup in zip(*seqs):
@@ -1145,6 +1149,26 @@ def n_deepcopy(eng, args, kwargs, st):
     return ok(_deep_clone(args[0], st, {}), st)
 
 
+def n_textwrap_indent(eng, args, kwargs, st):
+    """textwrap.indent(text, prefix) (no predicate): each line that is not blank gets the prefix.  Modelled for a text without any line boundary (as in
+    CPython: ''.join(prefix + line if line.strip() else line for line in text.splitlines(True))); with a boundary the result is uninterpreted."""
+    text, prefix = args[0], args[1]
+    if kwargs or len(args) != 2:
+        raise Unsupported("textwrap.indent with a predicate")
+    if isinstance(text, str) and isinstance(prefix, str):
+        import textwrap
+
+        return ok(textwrap.indent(text, prefix), st)
+    t, pfx = to_term(text), to_term(prefix)
+    bounds = "\n\r\x0b\x0c\x1c\x1d\x1e\x85"
+    has_b = z3.Or(*[z3.Contains(t, z3.StringVal(c)) for c in bounds])
+    blank = z3.InRe(t, smt.WS)
+    r = z3.If(has_b, z3.Function("textwrap_indent", S, S, S)(t, pfx), z3.If(blank, t, z3.Concat(pfx, t)))
+    eng.assumed.add("textwrap.indent: modelled for a text without line boundaries (within Latin-1; U+2028/U+2029 are outside the solver alphabet used): "
+                    "prefix + text unless blank; uninterpreted otherwise")
+    return ok(Sym(r, "str"), st)
+
+
 def n_identity(eng, args, kwargs, st):
     return ok(args[0] if len(args) == 1 else tuple(args), st)
 
@@ -1163,7 +1187,7 @@ NATIVE = {
     __import__("collections").OrderedDict: n_ordereddict,
     str.strip: n_str_method("strip"), str.lstrip: n_str_method("lstrip"), str.rstrip: n_str_method("rstrip"),
     str.startswith: n_str_method("startswith"), str.endswith: n_str_method("endswith"),
-    str.lower: n_str_method("lower"),
+    str.lower: n_str_method("lower"), __import__("textwrap").indent: n_textwrap_indent,
 }
 
 
@@ -1313,6 +1337,11 @@ def str_method(eng, recv, name, args, kwargs, st):
             raise Unsupported("strip with symbolic chars")
         if chars == "":
             return ok(recv, st)
+        if name == "lstrip" and not isinstance(recv, str):
+            pre = smt.literal_prefix(s)
+            stripped = chars if chars is not None else smt.PY_WS + "\x1c\x1d\x1e\x1f\x85\xa0"
+            if pre and pre[0] not in stripped:
+                return ok(recv, st)  # the text opens with a literal character that is not stripped: lstrip is the identity
         return ok(strip_model(eng, recv, chars, name, st), st)
     if name in ("isdecimal", "isdigit"):
         eng.assumed.add("str.isdecimal/isdigit: ASCII digits only (non-ASCII digits are outside the proof)")
@@ -1371,6 +1400,9 @@ def str_method(eng, recv, name, args, kwargs, st):
     if name == "join":
         if isinstance(args[0], Sym) and args[0].ty == "str" and recv == "":
             return ok(args[0], st)  # "".join(s) re-assembles the characters of s
+        if isinstance(args[0], Opq) and args[0].cls is None:
+            eng.assumed.add("sep.join(<opaque list of strings>): a text that is a function of the list and the separator, nothing else assumed")
+            return ok(Sym(z3.Function("str_join", S, Obj, S)(to_term(recv), args[0].t), "str"), st)
         items = eng.iter_concrete(args[0], st)
         parts = []
         for i, it in enumerate(items):
@@ -1381,6 +1413,21 @@ def str_method(eng, recv, name, args, kwargs, st):
             parts.append(it)
         return ok(concat(parts) if parts else "", st)
     if name == "split":
+        if len(args) == 1 and isinstance(args[0], str) and args[0] != "" and getattr(eng, "split_forks", False):
+            # s.split(sep): when sep does not occur the result is [s]; otherwise an opaque list
+            occurs = z3.Contains(s, z3.StringVal(args[0]))
+            outs = []
+            for cond, mk in ((z3.Not(occurs), "one"), (occurs, "many")):
+                if smt.quick_check(st.pc, cond) == "unsat":
+                    continue
+                s2 = st.copy()
+                s2.pc.append(cond)
+                if mk == "one":
+                    outs.append((s2.alloc(HList([recv])), s2))
+                else:
+                    eng.assumed.add("str.split on a symbolic string in which the separator occurs: result is an opaque list")
+                    outs.append((Opq(z3.Function("str_split", S, Obj)(s), None), s2))
+            return outs
         eng.assumed.add("str.split on a symbolic string: result is an opaque list (only handed on to opaque calls)")
         return ok(Opq(z3.Function("str_split", S, Obj)(s), None), st)
     raise Unsupported("str.%s on a symbolic string" % name)
